@@ -22,6 +22,7 @@ OpenVar == {"openMfs0", "openMfs3", "openMfs4", "openMfs6", "openMfs7", "openMfs
 \* floods: hundreds of legal frames written back to back (echo requests, dispositions for unknown deliveries, session flows, empty frames) against
 \* an endpoint whose internal channels hold a single frame ("tight": buffer_size 1 on connection and session): it must keep answering and stay usable
 ResumeVar == {"unsOffHuge", "unsSecHuge", "unsOffEnd", "unsGhosts", "unsManyGhosts", "unsAccepted", "unsNull", "unsDeclared", "unsIncomplete", "unsReceivedOk"}
+ResumeVarR == {"rUnsGhosts", "rUnsManyGhosts", "rUnsAccepted", "rUnsNull", "rUnsDeclared", "rUnsIncomplete", "rResumeUnknown", "rResumeAbort", "rResumeKnown"}
 Floods == {"floodEcho", "floodEchoDisp", "floodEchoDisp1", "floodEchoDisp2", "floodSessFlow"}
 Next == z.k = "start" /\ \/ \E st \in States, h \in Raw \cup Proto : z' = [k |-> "case", st |-> st, h |-> h]
                          \* (which task the runtime picks when several are ready is random: every flood is run a few times)
@@ -30,6 +31,9 @@ Next == z.k = "start" /\ \/ \E st \in States, h \in Raw \cup Proto : z' = [k |->
                          \* a sending link with an unsettled delivery has been detached without closing and is being resumed: the peer's attach carries an
                          \* unsettled map of its own making (positions beyond the message, unknown tags, many of them, states no receiver can be in)
                          \/ (Side = "client" /\ \E h \in ResumeVar : z' = [k |-> "case", st |-> "resuming", h |-> h])
+                         \* the same for a receiving link that holds a delivery it has accepted but (rcv-settle-mode second) not yet seen settled: the sender's
+                         \* attach carries the hostile map, or the sender "resumes" deliveries with transfers nobody asked for
+                         \/ (Side = "client" /\ \E h \in ResumeVarR : z' = [k |-> "case", st |-> "resumingR", h |-> h])
 Spec == Init /\ [][Next]_z
 
 PF(perf, ch, f) == [e |-> "PFrame", perf |-> perf, ch |-> ch, f |-> f]
@@ -58,16 +62,25 @@ Resuming == << [e |-> "AAttachS", l |-> "L4", s |-> "s1", cfg |-> [snd |-> 0, rc
                [e |-> "ASend", l |-> "L4", m |-> 7, len |-> 60, batchable |-> TRUE],
                [e |-> "ADetach", l |-> "L4", closed |-> FALSE, keep |-> TRUE], PF("detach", 3, [h |-> 8, closed |-> FALSE, err |-> ""]),
                [e |-> "AResume", l |-> "L4"] >>
+ResumingR == << [e |-> "AAttachR", l |-> "L6", s |-> "s1", cfg |-> [snd |-> 0, rcv |-> 1, credit |-> 5, auto_accept |-> FALSE]], PF("attach", 3, [name |-> "L6", h |-> 9, role |-> "s", snd |-> 0, rcv |-> 1, idc |-> 0]),
+                [e |-> "PFrame", perf |-> "transfer", ch |-> 3, f |-> [h |-> 9, did |-> 0, tagn |-> 1, tag |-> <<0>>, fmt |-> 0, settled |-> "f", more |-> FALSE], msg |-> [m |-> 60, len |-> 40, shape |-> "data"]],
+                [e |-> "ARecv", l |-> "L6"], [e |-> "ADispose", l |-> "L6", state |-> "accept"],
+                [e |-> "ADetach", l |-> "L6", closed |-> FALSE, keep |-> TRUE], PF("detach", 3, [h |-> 9, closed |-> FALSE, err |-> ""]),
+                [e |-> "AResume", l |-> "L6"] >>
+UnsAttachR(uns, inc) == PF("attach", 3, [name |-> "L6", h |-> 9, role |-> "s", snd |-> 0, rcv |-> 1, idc |-> 1, uns |-> uns, incomplete |-> inc])
+ResumeXfer(tag, aborted, len) == [e |-> "PFrame", perf |-> "transfer", ch |-> 3, f |-> [h |-> 9, did |-> 5, tagn |-> 1, tag |-> tag, fmt |-> 0, settled |-> "f", more |-> FALSE, resume |-> TRUE, aborted |-> aborted],
+                                    msg |-> [m |-> 60, len |-> 40, off |-> 0, n |-> len, shape |-> "data"]]
 UnsAttach(uns, inc) == PF("attach", 3, [name |-> "L4", h |-> 8, role |-> "r", snd |-> 0, rcv |-> 0, uns |-> uns, incomplete |-> inc])
 RcvSt(sn, so) == [k |-> "received", cond |-> "", txn |-> <<>>, sn |-> sn, so |-> so]
 St(k) == [k |-> k, cond |-> "", txn |-> <<>>, sn |-> 0, so |-> 0]
 Prefix(st) == IF st = "header" THEN SubSeq(IF Side = "client" THEN ClientOpen ELSE ListenerOpen, 1, 2) ELSE
               (IF Side = "client" THEN ClientOpen ELSE ListenerOpen)
               \o (IF st = "open" THEN <<>> ELSE Begin)
-              \o (IF st \in {"sender", "receiver", "midxfer", "closing", "tight", "resuming"} THEN Sender ELSE <<>>)
+              \o (IF st \in {"sender", "receiver", "midxfer", "closing", "tight", "resuming", "resumingR"} THEN Sender ELSE <<>>)
               \o (IF st \in {"receiver", "midxfer", "closing"} THEN Receiver ELSE <<>>)
               \o (IF st = "midxfer" THEN MidXfer ELSE <<>>)
               \o (IF st = "resuming" THEN Resuming ELSE <<>>)
+              \o (IF st = "resumingR" THEN ResumingR ELSE <<>>)
               \o (IF st = "closing" THEN <<[e |-> "AClose", err |-> ""]>> ELSE <<>>)
 HdrOv(perf, ch, f, hdr) == [e |-> "PFrame", perf |-> perf, ch |-> ch, f |-> f, hdr |-> hdr]
 FlowS == [nii |-> 1000, iw |-> 100, noi |-> 0, ow |-> 100]
@@ -143,9 +156,19 @@ Hostile(h) ==
     [] h = "unsNull" -> <<UnsAttach(<<[tag |-> [d |-> 0], st |-> St("none")]>>, FALSE)>>
     [] h = "unsDeclared" -> <<UnsAttach(<<[tag |-> [d |-> 0], st |-> [k |-> "declared", cond |-> "", txn |-> <<1, 2>>, sn |-> 0, so |-> 0]]>>, FALSE)>>
     [] h = "unsIncomplete" -> <<UnsAttach(<<>>, TRUE)>>
+    [] h = "rUnsGhosts" -> <<UnsAttachR(<<[tag |-> <<9, 9>>, st |-> St("accepted")], [tag |-> <<9, 8>>, st |-> RcvSt(1, 1)], [tag |-> <<>>, st |-> St("released")]>>, FALSE)>>
+    [] h = "rUnsManyGhosts" -> <<UnsAttachR([i \in 1..300 |-> [tag |-> <<7, i % 256, i \div 256>>, st |-> RcvSt(0, 0)]], FALSE)>>
+    [] h = "rUnsAccepted" -> <<UnsAttachR(<<[tag |-> <<0>>, st |-> St("accepted")]>>, FALSE)>>
+    [] h = "rUnsNull" -> <<UnsAttachR(<<[tag |-> <<0>>, st |-> St("none")]>>, FALSE)>>
+    [] h = "rUnsDeclared" -> <<UnsAttachR(<<[tag |-> <<0>>, st |-> [k |-> "declared", cond |-> "", txn |-> <<1, 2>>, sn |-> 0, so |-> 0]]>>, FALSE)>>
+    [] h = "rUnsIncomplete" -> <<UnsAttachR(<<>>, TRUE)>>
+    [] h = "rResumeUnknown" -> <<UnsAttachR(<<[tag |-> <<0>>, st |-> St("none")]>>, FALSE), ResumeXfer(<<4, 4>>, FALSE, -1)>>
+    [] h = "rResumeAbort" -> <<UnsAttachR(<<[tag |-> <<0>>, st |-> St("none")]>>, FALSE), ResumeXfer(<<0>>, TRUE, 0)>>
+    [] h = "rResumeKnown" -> <<UnsAttachR(<<[tag |-> <<0>>, st |-> St("none")]>>, FALSE), ResumeXfer(<<0>>, FALSE, -1)>>
     [] h = "flowBadRole" -> <<PF("flow", 3, [nii |-> 1000, iw |-> 100, noi |-> 0, ow |-> 100, h |-> 6, dc |-> 0, lc |-> 5, drain |-> TRUE])>>
 \* the probe: ordinary use afterwards; every call must return
-Probe(st) == (IF st \in {"sender", "receiver", "midxfer", "tight", "resuming"} THEN <<[e |-> "ASend", l |-> "L1", m |-> 1, len |-> 20, settled |-> TRUE]>> ELSE <<>>)
+Probe(st) == (IF st \in {"sender", "receiver", "midxfer", "tight", "resuming", "resumingR"} THEN <<[e |-> "ASend", l |-> "L1", m |-> 1, len |-> 20, settled |-> TRUE]>> ELSE <<>>)
+             \o (IF st = "resumingR" THEN <<[e |-> "ARecv", l |-> "L6"]>> ELSE <<>>)     \* (the call that takes a resumed delivery in, if there is one)
              \o (IF st = "header" THEN <<[e |-> "ABegin", s |-> "s1", cfg |-> [noi |-> 1000, iw |-> 3, ow |-> 100]]>> ELSE <<>>)
              \o (IF st = "closing" THEN <<>> ELSE <<[e |-> "AClose", err |-> ""]>>) \o <<PF("close", 0, [err |-> ""]), [e |-> "PEof"]>>
 Emit == z.k = "start" \/ PrintT(<<"SCRIPT", ToJson([side |-> Side, id |-> <<Side, z.st, z.h>> \o (IF "n" \in DOMAIN z THEN <<z.n>> ELSE <<>>), final_ms |-> 60000, ev |-> Prefix(z.st) \o Hostile(z.h) \o Probe(z.st)])>>)
